@@ -373,11 +373,29 @@ func (c *Ctx) builtinSemantics(fr *Frame, st *State, callee *ssa.Function, args 
 			c.trusted["runtime.FloatValue: unsafe bit cast modelled as Value{f64bits(f), dummyFloat64}"] = true
 			return c.mkVal(vt, fmt.Sprintf("(%s %s (if_float64 %s))", info.ctor, c.f64bits(args[0].S), fpLit(0, true))), true
 		}
+		{
+			// integer mode: the bit pattern is an uninterpreted integer with asfloat_of as its inverse
+			vt := rt
+			info := c.sorts.info(vt)
+			c.sorts.ifaceCtor(types.Typ[types.Float64])
+			c.declUF("f64bits_int", []string{"Float64"}, "Int")
+			c.declUF("asfloat_of", []string{"Int"}, "Float64")
+			c.trusted["runtime.FloatValue / AsFloat in integer mode: bit pattern abstracted by uninterpreted f64bits_int with inverse asfloat_of"] = true
+			b := c.def("fbits", "Int", fmt.Sprintf("(f64bits_int %s)", args[0].S))
+			c.assume("true", fmt.Sprintf("(and (<= 0 %s) (<= %s 18446744073709551615) (= (asfloat_of %s) %s))", b, b, b, args[0].S))
+			return c.mkVal(vt, fmt.Sprintf("(%s %s (if_float64 %s))", info.ctor, b, fpLit(0, true))), true
+		}
 	case mod + "/runtime.(Value).AsFloat":
 		if c.mode == BV {
 			info := c.sorts.info(args[0].T)
 			c.trusted["runtime.(Value).AsFloat: unsafe bit cast modelled as to_fp(scalar)"] = true
 			return c.mkVal(f64, fmt.Sprintf("((_ to_fp 11 53) (%s %s))", info.fields[0], args[0].S)), true
+		}
+		{
+			info := c.sorts.info(args[0].T)
+			c.declUF("asfloat_of", []string{"Int"}, "Float64")
+			c.trusted["runtime.FloatValue / AsFloat in integer mode: bit pattern abstracted by uninterpreted f64bits_int with inverse asfloat_of"] = true
+			return c.mkVal(f64, fmt.Sprintf("(asfloat_of (%s %s))", info.fields[0], args[0].S)), true
 		}
 	}
 	return Val{}, false
@@ -392,15 +410,26 @@ func (c *Ctx) callSiteAsserts(fr *Frame, st *State, callee *ssa.Function, args [
 		return
 	}
 	// ordinal of this call site among the calls to that callee (execution order of the engine = source order)
-	fr.callSeq["site:"+kind+callee.Name()]++
-	siteOrd := fr.callSeq["site:"+kind+callee.Name()]
+	forms := []string{callee.Name(), fnKey(callee)}
+	if callee.Pkg != nil {
+		forms = append(forms, callee.RelString(callee.Pkg.Pkg))
+	}
+	ords := map[string]int{}
+	for _, f := range forms {
+		if _, dup := ords[f]; dup {
+			continue
+		}
+		fr.callSeq["site:"+kind+f]++
+		ords[f] = fr.callSeq["site:"+kind+f]
+	}
 	for _, cl := range clauses {
 		cname, ord := cl.Name, 0
 		if i := strings.LastIndex(cname, "#"); i > 0 {
 			fmt.Sscanf(cname[i+1:], "%d", &ord)
 			cname = cname[:i]
 		}
-		if cname != callee.Name() && cname != fnKey(callee) && (callee.Pkg == nil || cname != callee.RelString(callee.Pkg.Pkg)) {
+		siteOrd, match := ords[cname]
+		if !match {
 			continue
 		}
 		if ord > 0 && ord != siteOrd {
@@ -486,7 +515,7 @@ func (c *Ctx) applyContract(fr *Frame, st *State, ct *Contract, callee *ssa.Func
 	// results
 	var res Val
 	var rvals []Val
-	if pv, ok := c.pureApp(ct, callee, args, rt); ok {
+	if pv, ok := c.pureApp(ct, callee, args, rt, st); ok {
 		res = pv
 		rvals = []Val{pv}
 	} else if tup, ok := rt.(*types.Tuple); ok {
@@ -515,7 +544,7 @@ func (c *Ctx) applyContract(fr *Frame, st *State, ct *Contract, callee *ssa.Func
 // pureApp: a function whose contract is marked `pure` denotes a
 // deterministic function of its (scalar) arguments: calls in code and in
 // specs are the same uninterpreted application, constrained by the ensures.
-func (c *Ctx) pureApp(ct *Contract, callee *ssa.Function, args []Val, rt types.Type) (Val, bool) {
+func (c *Ctx) pureApp(ct *Contract, callee *ssa.Function, args []Val, rt types.Type, st *State) (Val, bool) {
 	if !ct.Pure || callee == nil || rt == nil {
 		return Val{}, false
 	}
@@ -536,6 +565,23 @@ func (c *Ctx) pureApp(ct *Contract, callee *ssa.Function, args []Val, rt types.T
 	}
 	if len(terms) == 0 {
 		return Val{}, false
+	}
+	// `reads heap(T)`: the result also depends on the current contents of those heaps
+	for _, cl := range ct.byKind("reads") {
+		for _, part := range splitTop(cl.Text, ',') {
+			e, err := parseSpecExpr(part)
+			if err != nil {
+				continue
+			}
+			env := &SpecEnv{c: c, pkg: c.eng.pkgByPath(ct.PkgPath)}
+			if t := env.typeOf(argOf(e)); t != nil {
+				for _, key := range []string{c.heapKeyFor(t), c.arrKeyFor(t)} {
+					c.ensureHeapSort(key, t)
+					sorts = append(sorts, c.heapSorts[key])
+					terms = append(terms, c.heapSym(st, key))
+				}
+			}
+		}
 	}
 	uf := "purefn_" + sanitize(fnKey(callee))
 	c.declUF(uf, sorts, c.sorts.sortOf(t))
@@ -656,6 +702,11 @@ func (c *Ctx) havocLoc(env *SpecEnv, e ast.Expr, st *State) {
 				key := c.heapKeyFor(tv)
 				c.ensureHeapSort(key, tv)
 				st.heaps[key] = c.decl("modheap", c.heapSorts[key])
+				c.refAxioms(st.heaps[key], key, st.alloc)
+				akey := c.arrKeyFor(tv) // elements of []T as well
+				c.ensureHeapSort(akey, tv)
+				st.heaps[akey] = c.decl("modheap", c.heapSorts[akey])
+				c.refAxioms(st.heaps[akey], akey, st.alloc)
 				return
 			}
 		}
